@@ -108,6 +108,7 @@ def make_case(rng, kinds, sym=(0, 0, 0), nonuni=False, cplx=False, kvec=None, rs
     dets.append({"name": "subset", "tag": "subset", "box": bx["box"], "rbox": bx["rbox"], "exact": True,
                  "components": rng.sample(COMPS, rng.randint(1, 4)), "interval": 2})
     return {"kind": "scene", "scene": scene, "rshape": rshape, "sym": list(sym), "t": rng.choice([0, 2]), "mode": mode,
+            "padded": bool(any(sym)) and mode == "direct",
             "E": rand_fields(rng, rshape, cplx), "H": rand_fields(rng, rshape, cplx), "Hprev": rand_fields(rng, rshape, cplx), "dets": dets}
 
 
@@ -260,18 +261,38 @@ def det_expr(case, out, d):
     return f"qlist_close_abs {TOL} {ql(sc)} {model} {lst(re, ql)}"
 
 
+def padded_exprs(case, out):
+    """pad_fields_with_symmetry_mirror output == model pad_mirror at every padded index (halo slabs, edges, corners)"""
+    if not case.get("padded"):
+        return []
+    cplx = bool(case["scene"].get("complex"))
+    n = out["shape"]
+    res = []
+    for key, isH, fld in (("E", "false", "E"), ("H", "true", "(havg Hprev H)")):
+        model = f"(tab4 3 {n[0] + 2} {n[1] + 2} {n[2] + 2} (pad_mirror dims bnds sym {isH} {fld}))"
+        re = fvals(out["padded"][key]["re"])
+        if cplx:
+            im = fvals(out["padded"][key]["im"])
+            sc = max([abs(v) for v in re + im] + [1e-300])
+            res.append((f"padded_{key}", f"clist_close_abs {TOL} {ql(sc)} {model} {lst(re, ql)} {lst(im, ql)}"))
+        else:
+            res.append((f"padded_{key}", f"qlist_eqb {model} {lst(re, ql)}"))
+    return res
+
+
 def coq_expr(case, out):
     if "crash" in out:
         return "false"
-    return prelude(case, out) + "(" + " && ".join(det_expr(case, out, d) for d in case["dets"]) + ")"
+    parts = [det_expr(case, out, d) for d in case["dets"]] + [e for _, e in padded_exprs(case, out)]
+    return prelude(case, out) + "(" + " && ".join(parts) + ")"
 
 
 def show_model(case, out):
     if "crash" in out:
         return str(out)[:400]
-    exprs = [prelude(case, out) + det_expr(case, out, d) for d in case["dets"]]
-    res, errs = core.coq_eval_shards(PID, COQ_HEADER, exprs, shard_size=4, tag="_show")
-    bad = [d["name"] for d, r in zip(case["dets"], res) if r is not True]
+    named = [(d["name"], det_expr(case, out, d)) for d in case["dets"]] + padded_exprs(case, out)
+    res, errs = core.coq_eval_shards(PID, COQ_HEADER, [prelude(case, out) + e for _, e in named], shard_size=4, tag="_show")
+    bad = [nm for (nm, _), r in zip(named, res) if r is not True]
     return "detectors whose model row differs from the implementation: " + ", ".join(bad) + (" ; " + str(errs[:1]) if errs else "")
 
 
@@ -365,6 +386,18 @@ def predicate(case, out):
     co, raw = oracle(case, out)
     tag = "-".join(sorted({("bloch" if b["needs_complex"] else "wrap" if b["wrap"] else "zero") for b in out["bnds"]}
                           | ({"mirror"} if -1 in out["symmetry"] else set()) | ({"symzero"} if 1 in out["symmetry"] else set())))
+    if case.get("padded"):
+        inp = inputs(case, out)
+        for key, isH, F in (("E", False, inp["E"]), ("H", True, (inp["Hprev"] + inp["H"]) / 2)):
+            got = np.asarray(fvals(out["padded"][key]["re"]))
+            if cplx:
+                got = got + 1j * np.asarray(fvals(out["padded"][key]["im"]))
+            got = got.reshape(out["padded_shape"])
+            exp = extend(F, out, isH)
+            if got.shape != exp.shape or float(np.abs(got - exp).max(initial=0)) > 1e-9 * max(float(np.abs(exp).max(initial=0)), 1e-300):
+                w = np.unravel_index(int(np.argmax(np.abs(got - exp))), got.shape) if got.shape == exp.shape else None
+                return (f"padded-{key}", f"pad_fields_with_symmetry_mirror({key}) on {out['shape']} ({tag}): padded index {None if w is None else tuple(int(v) for v in w)} "
+                        f"(component, x, y, z): got {got[w] if w else got.shape} expected {exp[w] if w else exp.shape}")
     for d in case["dets"]:
         o = out["dets"][d["name"]]
         if o["slice"] != d["rbox"]:
